@@ -779,6 +779,17 @@ def rulePODInterval(ts: datetime, p: Time, i: Interval) -> Optional[Interval]:
             minute=i.t_from.minute,
             DOW=i.t_from.DOW,
         )
+    if (
+        t_from is not None
+        and t_to is not None
+        and t_from.isDateTime
+        and t_to.isDateTime
+        and t_from.dt > t_to.dt
+    ):
+        # the part of day contradicts the clock range: moving only the start
+        # into the second half of the day would put it after the end
+        # (evening + "21st 11am - 1pm" is not 23:00 - 13:00)
+        return None
     return Interval(t_from=t_from, t_to=t_to)
 
 
